@@ -122,6 +122,8 @@ class UnitX(Unit):
         self.emit_extension(out, G, rel, f, probe)
         out.spec(spec_section('X_spec.rs', 'complex-type-spec'))
         self.emit_complex_type(out, G, rel, f, probe)
+        out.spec(spec_section('X_spec.rs', 'element-spec'))
+        self.emit_element(out, G, probe)
         out.spec(spec_section('X_spec.rs', 'node-spec'))
         self._trusted += sections(out, 'X_glue.rs', ['node-callees'])
         self.emit_node(out, G, probe)
@@ -286,6 +288,28 @@ class UnitX(Unit):
                   origin={f'facet-{x}': 'property' for _, x in FACETS},
                   opaque=[G.opaque(out, m.group(0), 'Vec<String>')],
                   inserts=[{'pos': 'body_start', 'text': reveal(*[x for _, x in FACETS])}])
+
+    def emit_element(self, out, G, probe):
+        rel = 'model/structures/element.rs'
+        f = SRC + rel
+        im = G.top(rel, 'impl', r'.*TryFromNode.* for ElementProps')
+        open_container(out, im, f)
+        for c in im.children:
+            if c.kind == 'type':
+                emit_verbatim(out, c, f)
+        fn = child(im, 'fn', 'try_from_node')
+        splice_fn(out, fn, f, 'element::ElementProps::try_from_node', probe=probe,
+                  ensures=[('element-is-alias-or-carries-its-anonymous-type', 'res is Ok ==> element_ok(node, res->Ok_0)')],
+                  origin={'element-is-alias-or-carries-its-anonymous-type': 'property'},
+                  opaque=[{'at': 'node.children().filter(Node::is_element)', 'call': 'element_children(node)', 'type': 'Vec<Node>', 'note': ELEM_CHILDREN_NOTE}],
+                  closures=[{'at': '|| WriterError::attribute_missing(&node, "name")', 'ret': 'r: WriterError', 'ensures': 'true'},
+                            {'at': '|t| as_rust_type(t, doc)', 'ret': 'r: RustFieldType', 'ensures': 'true'}],
+                  inserts=[{'pos': 'body_start', 'text': reveal('complexType', 'name', 'type')}],
+                  loops={0: {'kind': 'for', 'iter': 'it', 'match': 'in node.children()',
+                             'invariants': [('no-complex-type-child-so-far', 'it.seq() == elem_kids(node) && attr(node, "name"@) == Some(xml_name@) && attr(node, "type"@) is None '
+                                                                             '&& forall|j: int| 0 <= j < it.index@ ==> tag(#[trigger] elem_kids(node)[j]) != "complexType"@')],
+                             'body_prefix': '            proof { assert(n == elem_kids(node)[it.index@ as int]); }'}})
+        close_container(out, im, f)
 
     def emit_node(self, out, G, probe):
         rel = 'model/node.rs'
